@@ -1467,4 +1467,169 @@ class C16(Oracle):
         return out
 
 
-ORACLES = {'C18': C18, 'C08': C08, 'C09': C09, 'C10': C10, 'C11': C11, 'C12': C12, 'C05': C05, 'C06': C06, 'C07': C07, 'C04': C04, 'C20': C20, 'C15': C15, 'C16': C16}
+
+def reset_case_to_json(name, kw, seed):
+    kw = dict(kw)
+    if 'colors' in kw:
+        kw['colors'] = [c.name for c in kw['colors']]
+    if 'object_type' in kw:
+        kw['object_type'] = kw['object_type'].__name__
+    return {'kind': 'reset', 'name': name, 'params': kw, 'seed': seed}
+
+
+def reset_call(c, rng=None):
+    import numpy as np
+    from gym_gridverse.envs import reset_functions as rsf
+    from gym_gridverse.geometry import Shape
+    from gym_gridverse.grid_object import Color, grid_object_registry
+
+    p = dict(c['params'])
+    h, w = p.pop('h'), p.pop('w')
+    kw = {}
+    if 'colors' in p:
+        kw['colors'] = {Color[x] for x in p.pop('colors')}
+    if 'object_type' in p:
+        kw['object_type'] = grid_object_registry.from_name(p.pop('object_type'))
+    if 'lh' in p:
+        kw['layout'] = (p.pop('lh'), p.pop('lw'))
+    ren = {'n': 'num_obstacles' if c['name'] == 'dynamic_obstacles' else 'num_rivers', 'nb': 'num_beacons', 'ne': 'num_exits'}
+    for k, v in p.items():
+        kw[ren.get(k, k)] = v
+    fn = rsf.reset_function_registry[c['name']]
+    return fn(Shape(h, w), rng=rng if rng is not None else np.random.default_rng(c['seed']), **kw)
+
+
+def reset_valid(c):
+    """the parameter combinations that can be honoured (None = not decided by a closed formula)"""
+    import numpy as np
+
+    p = c['params']
+    h, w = p['h'], p['w']
+    n = c['name']
+    if n == 'empty':
+        return h >= 4 and w >= 4
+    if n == 'teleport':
+        return h >= 4 and w >= 4
+    if n == 'keydoor':
+        return h >= 4 and w >= 5
+    if n == 'dynamic_obstacles':
+        return h >= 4 and w >= 4 and 0 <= p['n'] <= (h - 2) * (w - 2) - 2
+    if n == 'crossing':
+        ok = h >= 5 and w >= 5 and h % 2 == 1 and w % 2 == 1 and p['n'] > 0
+        return ok if p['object_type'] in ('Wall', 'Exit', 'MovingObstacle', 'Floor') else (False if not ok else None)
+    if n == 'memory':
+        cs = set(p['colors'])
+        return h >= 5 and w >= 5 and w % 2 == 1 and 'NONE' not in cs and len(cs) >= 2
+    if n in ('rooms', 'memory_rooms'):
+        lh, lw = p['lh'], p['lw']
+        if lh < 1 or lw < 1:
+            return False
+        ys = np.linspace(0, h - 1, num=lh + 1, dtype=int)
+        xs = np.linspace(0, w - 1, num=lw + 1, dtype=int)
+        if len(set(ys)) != len(ys) or len(set(xs)) != len(xs):
+            return False
+        # degenerate (height-0 / width-0) rooms are accepted by the code whenever no passage has to
+        # be sampled inside them; no closed formula is asserted there
+        if any(b - a < 2 for a, b in zip(ys, ys[1:])) or any(b - a < 2 for a, b in zip(xs, xs[1:])):
+            return None
+        floor = sum((b - a - 1) for a, b in zip(ys, ys[1:])) * sum((b - a - 1) for a, b in zip(xs, xs[1:])) + (lh - 1) * lw + lh * (lw - 1)
+        if n == 'rooms':
+            return floor >= 2
+        cs = set(p['colors'])
+        return 'NONE' not in cs and len(cs) >= 2 and p['nb'] >= 1 and p['ne'] >= 2 and p['ne'] <= len(cs) and 1 + p['nb'] + p['ne'] <= floor
+    return None
+
+
+class C13(Oracle):
+    prop = 'C13'
+
+    def gen(self, rng):
+        from harness.corr_reset import param_stream
+
+        ps = param_stream(rng)
+        while True:
+            name, kw = next(ps)
+            yield reset_case_to_json(name, kw, rng.randrange(2**31))
+
+    def from_line(self, line):
+        return None
+
+    def check(self, c):
+        from collections import Counter
+        from gym_gridverse.grid_object import Beacon, Door, Exit, Floor, Key, MovingObstacle, NoneGridObject, Telepod, Wall, Color
+
+        out = []
+        valid = reset_valid(c)
+        name = c['name']
+        try:
+            s = reset_call(c)
+        except ValueError:
+            if valid is True:
+                out.append(V(f'{name}/valid-parameters-rejected', f'{c}'))
+            return out
+        except Exception as e:
+            if name == 'crossing' and c['params']['object_type'] not in ('Wall', 'Exit', 'MovingObstacle', 'Floor'):
+                return out  # outside the parameter domain: the type is not constructible without arguments
+            out.append(V(f'{name}/wrong-exception-kind', f'{type(e).__name__}: {e} {c["params"]}'))
+            return out
+        if valid is False:
+            out.append(V(f'{name}/invalid-parameters-accepted', f'{c["params"]}'))
+        p = c['params']
+        h, w = p['h'], p['w']
+        g = s.grid
+        if g.shape.as_tuple != (h, w):
+            out.append(V(f'{name}/shape', f'{c["params"]}'))
+            return out
+        for q in g.area.positions('border'):
+            if not isinstance(g[q], Wall):
+                out.append(V(f'{name}/broken-wall-boundary', f'{c["params"]} seed={c["seed"]} at {q}'))
+                break
+        a = s.agent
+        if not in_grid(g, a.position):
+            out.append(V(f'{name}/agent-outside', f'{c}'))
+            return out
+        if not isinstance(a.grid_object, NoneGridObject):
+            out.append(V(f'{name}/agent-not-empty-handed', f'{c}'))
+        cell = g[a.position]
+        if cell.blocks_movement or isinstance(cell, (Exit, MovingObstacle, Telepod)):
+            out.append(V(f'{name}/agent-on-bad-cell', f'{c["params"]} seed={c["seed"]}: {cell!r}'))
+        cnt = Counter(type(g[q]).__name__ for q in g.area.positions())
+        exits = [g[q] for q in g.area.positions() if isinstance(g[q], Exit)]
+        if name in ('empty', 'rooms', 'dynamic_obstacles', 'keydoor', 'teleport') and len(exits) != 1:
+            out.append(V(f'{name}/exit-count', f'{c["params"]}: {len(exits)}'))
+        if name == 'crossing':
+            exp = 1 if p['object_type'] != 'Exit' else None
+            if exp is not None and len(exits) != exp:
+                out.append(V('crossing/exit-count', f'{c["params"]}: {len(exits)}'))
+        if name == 'dynamic_obstacles' and cnt['MovingObstacle'] != p['n']:
+            out.append(V('dynamic_obstacles/obstacle-count', f'{c["params"]}: {cnt["MovingObstacle"]}'))
+        if name == 'keydoor':
+            doors = [(q, g[q]) for q in g.area.positions() if isinstance(g[q], Door)]
+            keys = [(q, g[q]) for q in g.area.positions() if isinstance(g[q], Key)]
+            if len(doors) != 1 or len(keys) != 1:
+                out.append(V('keydoor/inventory', f'{c["params"]}: {len(doors)} doors {len(keys)} keys'))
+            else:
+                (dq, dd), (kq, kk) = doors[0], keys[0]
+                if dd.state is not Door.Status.LOCKED or dd.color != kk.color:
+                    out.append(V('keydoor/door-key-mismatch', f'{c["params"]}'))
+                col = [g[y, dq.x] for y in range(1, h - 1)]
+                if not all(isinstance(o, (Wall, Door)) for o in col):
+                    out.append(V('keydoor/door-not-in-dividing-wall', f'{c["params"]}'))
+                if not (kq.x < dq.x and a.position.x < dq.x):
+                    out.append(V('keydoor/agent-or-key-on-wrong-side', f'{c["params"]} seed={c["seed"]}'))
+        if name == 'teleport':
+            tp = [g[q] for q in g.area.positions() if isinstance(g[q], Telepod)]
+            if len(tp) != 2 or tp[0].color != tp[1].color:
+                out.append(V('teleport/telepods', f'{c["params"]}: {len(tp)}'))
+        if name in ('memory', 'memory_rooms'):
+            beacons = [g[q] for q in g.area.positions() if isinstance(g[q], Beacon)]
+            ne = 2 if name == 'memory' else p['ne']
+            nb = 2 if name == 'memory' else p['nb']
+            if len(exits) != ne or len({e.color for e in exits}) != ne:
+                out.append(V(f'{name}/exits-not-distinct', f'{c["params"]} seed={c["seed"]}'))
+            if len(beacons) != nb or len({b.color for b in beacons}) != 1 or sum(e.color == beacons[0].color for e in exits) != 1:
+                out.append(V(f'{name}/beacons', f'{c["params"]} seed={c["seed"]}'))
+        return out
+
+
+ORACLES = {'C18': C18, 'C08': C08, 'C09': C09, 'C10': C10, 'C11': C11, 'C12': C12, 'C05': C05, 'C06': C06, 'C07': C07, 'C04': C04, 'C20': C20, 'C15': C15, 'C16': C16, 'C13': C13}
